@@ -99,8 +99,8 @@ CHECK = Check(
     families=[
         Family("sessions", run_session,
                lambda tier: session_case(tier, reliable_only=False, need_partial=True, max_sends=30 if tier == "quick" else 60,
-                                         loss_bias=True, burst_bias=True),
-               quick=3000, thorough=100000, min_shard=20),
+                                         loss_bias=True, burst_bias=True, warmup=True),
+               quick=5000, thorough=100000, min_shard=20),
     ],
     floor=100,
     assumptions=["as C01/C02"],
